@@ -9,5 +9,5 @@ CONSTANTS
   Cap = 1
   MaxHist = 0
 CHECK_DEADLOCK FALSE
-INVARIANTS TypeOK R1_OnlyExact R1_Spurious BufConsistent R3_AcceptAfterCloseErr NoSpuriousEOF NoBlockingUnderLock NothingLeftBehind NoCloseStuck NoAcceptAfterCloseStuck
-PROPERTIES R2_CloseReturns R3_AcceptAfterCloseReturns
+INVARIANTS TypeOK R1_OnlyExact R1_Spurious BufConsistent R3_AcceptAfterCloseErr NoSpuriousEOF NoBlockingUnderLock NothingLeftBehind NoCloseStuck NoAcceptAfterCloseStuck R1_Decided
+PROPERTIES R2_CloseReturns R3_AcceptAfterCloseReturns R1_DecidedOnceClosed
